@@ -155,13 +155,18 @@ def one_case(c, rng, tmp):
         extra["num_workers"] = 2
     combos = sw.combos_arg(rng) if sw.combos else None
     cases_t = [tuple(cc) for cc in sw.cases]
+    # a single case argument may be given as bare values (also strings) and as a bare name
+    bare = len(sw.case_args) == 1 and rng.random() < 0.5
+    cases_sp = [cc[0] for cc in cases_t] if bare else cases_t
+    fn_args_sp = sw.case_args[0] if (bare and rng.random() < 0.5) else tuple(sw.case_args)
+    desc["bare_case_values"] = bare
     given = {"constants": constants, "resources": resources, "attrs": attrs}
     constants, resources, attrs = dict(constants), dict(resources), dict(attrs)   # what xyzpy is handed
     try:
         if api == "function":
             if sw.cases and rng.random() < 0.5:
                 f = xyzpy.case_runner_to_df if to_df else xyzpy.case_runner_to_ds
-                out = f(fn, tuple(sw.case_args), cases_t, var_names, var_dims=var_dims, var_coords=var_coords,
+                out = f(fn, fn_args_sp, cases_sp, var_names, var_dims=var_dims, var_coords=var_coords,
                         combos=combos, constants=constants or None, resources=resources or None,
                         attrs=attrs or None, shuffle=shuffle, verbosity=0, **extra)
             else:
@@ -195,7 +200,7 @@ def one_case(c, rng, tmp):
             if sw.cases:
                 # run_cases forwards `combos` unparsed (parse=False): hand it the parsed form
                 from xyzpy.gen.prepare import parse_combos
-                out = runner.run_cases(cases_t, fn_args=tuple(sw.case_args), combos=parse_combos(combos),
+                out = runner.run_cases(cases_sp, fn_args=fn_args_sp, combos=parse_combos(combos),
                                        shuffle=shuffle, to_df=to_df, verbosity=0, **extra)
             else:
                 out = runner.run_combos(combos, shuffle=shuffle, to_df=to_df, verbosity=0, **extra)
